@@ -986,6 +986,32 @@ def targeted_specs(rng, tier):
         form = ["dict_explicit", "single_cut_gates", "dict_marked", "single_pcq", "dict_auto", "dict_explicit"][i % 6]
         specs.append(dict(kind="roundtrip", it=-2, n=n, form=form, gates=gates, labels=[T(l) for l in labels],
                           obs=_dense_obs(rng, n, 1) + [[3, 3, 3, 3]], idle=[], stream="weak_cuts"))
+    # (l) unseparated circuit, THREE cut gates marked through cut_gates, a generic (non-commuting) one-qubit gate IMMEDIATELY
+    #     before each cut gate on that gate's SECOND operand (or the previous cut gate itself ends on that qubit): the two
+    #     halves of every cut must be placed where the cut gate stood, after everything that precedes it in the data
+    cx_family = [("cx", []), ("cz", []), ("cy", []), ("ch", [])]      # 6 maps each: 216 samples, one observable group
+    for i in range(4 * rep):
+        n = 4 if i % 4 == 1 else 3
+        gates = _rot_layer(rng, range(n))
+        prev_first = None
+        for k in range(3):
+            if i % 4 == 3 and k > 0:
+                b = prev_first                                  # back to back: second operand = previous cut's first one
+                a = [q for q in range(n) if q != b][int(rng.integers(0, n - 1))]
+            else:
+                a, b = [int(q) for q in rng.permutation(n)[:2]]
+                first = [dict(name="rx", params=[float(rng.uniform(0.4, 1.2))], qubits=[a])] if rng.integers(0, 2) else []
+                pre = [dict(name="u", params=[float(rng.uniform(0.5, 1.3)), float(rng.uniform(0.4, 1.2)), float(rng.uniform(0.4, 1.2))],
+                            qubits=[b]),
+                       dict(name="h", params=[], qubits=[b])][0 if rng.integers(0, 3) else 1]
+                gates += first + [pre]                          # `pre` is the instruction directly in front of the cut gate
+            gates.append(_g2(cx_family[int(rng.integers(0, len(cx_family)))], a, b, cut=True))
+            prev_first = a
+        gates += _rot_layer(rng, range(n))
+        dense = _dense_obs(rng, n, 1)[0]
+        sub = [l if rng.integers(0, 2) else 0 for l in dense]  # qubit-wise commuting with `dense`: one group
+        specs.append(dict(kind="roundtrip", it=-2, n=n, form="single_cut_gates", gates=gates, labels=[T(0)] * n,
+                          obs=[dense, sub, list(dense)], idle=[], stream="gate_before_third_cut"))
     return specs
 
 
@@ -1027,7 +1053,8 @@ def generate(rng, tier, outdir):
              "histories (.definition read before the call, a finite-budget generate first, descending gate ids for cut_gates); "
              "rzx / xx_plus_yy / xx_minus_yy at 1e-4..1e-6 off the special angles; a qubit touched only by marked cut gates under "
              "automatic labels; crx/cry/crz/cp with |theta| in (pi, 4 pi); 2-3 weakly entangling cuts (|theta| in [1e-4, 1e-3]) whose "
-             "joint maps have probabilities between the cut-off and 1e-8. Values are compared at 1e-10 * kappa (cap 1e-7). The uniform stream also draws resets, "
+             "joint maps have probabilities between the cut-off and 1e-8; three cx-family cut gates marked via cut_gates in ONE unseparated circuit, each "
+             "directly preceded by a generic one-qubit gate on its second operand (or by the previous cut gate ending there). Values are compared at 1e-10 * kappa (cap 1e-7). The uniform stream also draws resets, "
              "registers, tuple labels, pre-placed gates and histories. "
              "distinct = distinct Coq case literal; non-trivial = at least one cut reconstructed, or a refusal",
     )
